@@ -1,4 +1,5 @@
 import Setec.Model.Updater
+import Setec.Generated.Facts
 /-!
 # C15 - updaters and watchers never miss the latest secret value
 
@@ -159,5 +160,13 @@ theorem closed_exactly_once (es : List Ev) (s : State) (hr : run init es = some 
 example : ∃ s, run init [.initRead, .initBuild, .install, .install, .install, .drain, .readCur, .build true] = some s ∧
     s.valueSrc = 3 ∧ s.pending = false ∧ s.closed = [1] ∧ s.builds = 2 := by
   refine ⟨_, rfl, ?_⟩; decide
+
+/-- T1: `Updater.Get` is one critical section - lock, deferred unlock, and the builder runs
+inside it with no unlock in between - so the model's drain / read / build sub-steps of one Get
+cannot interleave with another Get's (the `Ev` sequences above are per-Get atomic). -/
+theorem fact_get_atomic :
+    Facts.storeLockTokens.lookup "Updater.Get" = some ["lock:mu", "defer-unlock:mu", "build"] ∧
+    Facts.storeLockTokens.lookup "Updater.Err" = some ["lock:mu", "defer-unlock:mu"] := by
+  decide
 
 end Setec.C15
